@@ -45,6 +45,10 @@ type SchedDelay struct {
 	// Kind "error": the GETs fail with a transport error instead of answering "no such
 	// object". A version may be skipped when its nodes are not visible yet, never because a
 	// request failed: an open hit by such a window fails, or succeeds under the full oracle.
+	// Kind "put-error": not GETs but the client's own PUTs of node objects numbered
+	// Nth..Nth+Len-1 fail with a transport error: the commit in progress fails, the statement
+	// reports an error and has no effect; the client goes on, and whatever it commits
+	// afterwards (and committed before) must be in every later open.
 	Kind string `json:"kind,omitempty"`
 }
 
@@ -78,7 +82,13 @@ func genSchedCase(t *rapid.T) SchedCase {
 		for i := 0; i < nd; i++ {
 			c.Delays = append(c.Delays, SchedDelay{Client: rapid.IntRange(0, n-1).Draw(t, "dclient"),
 				Nth: rapid.IntRange(0, 5).Draw(t, "dnth"), Len: rapid.IntRange(1, 2).Draw(t, "dlen"),
-				Kind: rapid.SampledFrom([]string{"", "", "error"}).Draw(t, "dkind")})
+				Kind: rapid.SampledFrom([]string{"", "", "error", "put-error"}).Draw(t, "dkind")})
+			if c.EPN != 4096 && c.Delays[i].Kind == "put-error" {
+				// K4: on multi-node trees the rollback after a failed commit runs into the
+				// dependency's in-place mutation of shared nodes (confirmed with the patched
+				// dependency); failed commits are followed up on single-node trees only
+				c.Delays[i].Kind = "error"
+			}
 		}
 	}
 	return c
@@ -252,6 +262,8 @@ func runSchedOn(c SchedCase, o *Obs, sc *sched) error {
 	foreignGets := make([]int, n)
 	hits := make([]int, n)    // delayed answers handed to each client so far
 	errHits := make([]int, n) // transport errors handed to each client so far
+	ownPuts := make([]int, n) // node PUTs issued by each client so far
+	putHits := make([]int, n) // of which failed by a "put-error" window
 	store.Intercept = func(q *fakes3.Req) error {
 		ci := clientOf(q.Client)
 		if ci < 0 || ci >= n {
@@ -265,6 +277,14 @@ func runSchedOn(c SchedCase, o *Obs, sc *sched) error {
 			defer mu.Unlock()
 			switch q.Op {
 			case "PUT":
+				k := ownPuts[ci]
+				ownPuts[ci]++
+				for _, d := range c.Delays {
+					if d.Kind == "put-error" && c.EPN == 4096 && d.Client == ci && k >= d.Nth && k < d.Nth+d.Len {
+						putHits[ci]++
+						return fakes3.ErrInjected
+					}
+				}
 				if _, ok := creator[q.Key]; !ok {
 					creator[q.Key] = ci
 				}
@@ -274,6 +294,9 @@ func runSchedOn(c SchedCase, o *Obs, sc *sched) error {
 					foreignGets[ci]++
 					for _, d := range c.Delays {
 						if d.Client == ci && k >= d.Nth && k < d.Nth+d.Len {
+							if d.Kind == "put-error" {
+								continue
+							}
 							if d.Kind == "error" {
 								errHits[ci]++
 								return fakes3.ErrInjected
@@ -292,13 +315,25 @@ func runSchedOn(c SchedCase, o *Obs, sc *sched) error {
 	hitsOf := func(ci int) int {
 		mu.Lock()
 		defer mu.Unlock()
-		return hits[ci] + errHits[ci] // an operation hit by either kind may fail
+		return hits[ci] + errHits[ci] + putHits[ci] // an operation hit by any kind may fail
+	}
+	getHitsOf := func(ci int) int {
+		mu.Lock()
+		defer mu.Unlock()
+		return hits[ci] + errHits[ci]
 	}
 	uncertain := make([]MSet, n) // state after a write that failed while nodes were delayed
 	commits := make([][]commitRec, n)
 	var opens []openRec
 	errs := make([]error, n)
 	ownKey := func(ci, k int) Val { return vInt(int64(100*ci + k)) }
+	ownCell := func(ci int, cell string) bool {
+		var k int
+		if _, err := fmt.Sscanf(cell, "I:%d", &k); err != nil {
+			return false
+		}
+		return k >= 100*ci && k < 100*ci+100
+	}
 
 	var wg sync.WaitGroup
 	for ci := 0; ci < n; ci++ {
@@ -390,6 +425,7 @@ func runSchedOn(c SchedCase, o *Obs, sc *sched) error {
 			for i, op := range c.Scripts[ci] {
 				where := fmt.Sprintf("client %d op %d (%s)", ci, i, op.Op)
 				h0 = hitsOf(ci)
+				g0 := getHitsOf(ci)
 				mu.Lock()
 				d0 = hits[ci]
 				mu.Unlock()
@@ -420,7 +456,38 @@ func runSchedOn(c SchedCase, o *Obs, sc *sched) error {
 					outcome, added, _ := view.Exec(st, wideCols)
 					start := sc.tick()
 					q, args := st.SQL(tn, "k")
+					mu.Lock()
+					p0 := putHits[ci]
+					mu.Unlock()
 					err := conn.Exec(q, args...)
+					mu.Lock()
+					putFailed := putHits[ci] > p0
+					mu.Unlock()
+					if putFailed && getHitsOf(ci) == g0 {
+						// a node PUT of this statement's commit failed: the statement must report
+						// the error and have no effect; the client goes on
+						if errClass(err) != "error" {
+							errs[ci] = fmt.Errorf("%s: a node PUT of its commit failed with a transport error, yet the statement reports %v", where, err)
+							return
+						}
+						o.Class("commit-failed-by-put-error-client-continues")
+						got, derr := conn.Dump(tn)
+						if derr != nil {
+							errs[ci] = fmt.Errorf("%s: after the failed commit the connection cannot read the table: %v", where, derr)
+							return
+						}
+						var mine Rows
+						for _, r := range got {
+							if ownCell(ci, r[0]) {
+								mine = append(mine, r)
+							}
+						}
+						if want := own.Rows(wideCols); !regressed && !mine.Sorted().Equal(want) {
+							errs[ci] = fmt.Errorf("%s: after its commit failed the connection shows own rows\n%sbut it has committed\n%s", where, mine.Sorted(), want)
+							return
+						}
+						continue
+					}
 					if cls := errClass(err); cls != outcome && tolerated() {
 						if len(added) > 0 {
 							u := own.Clone()
